@@ -248,7 +248,7 @@ def bounds(ctx):
         want = {'self.mtu': 1, '': -k}
         R.check(_lin_eq(upper, want), rule, key, f'{k} credit byte(s) + tx_buffer[:{norm(tk.value.slice.upper)}] = self.mtu', f'chunk may reach {k} + ({norm(tk.value.slice.upper)}) bytes, not self.mtu: a frame can exceed the negotiated maximum (or wastes capacity)', p.loc(tk))
         # consumption
-        cons = blk[i + 1] if i + 1 < len(blk) else None
+        cons = next((s_ for s_ in blk[i + 1:] if isinstance(s_, ast.Assign) and dotted(s_.targets[0]) == 'self.tx_buffer'), None)
         ok = False
         if isinstance(cons, ast.Assign) and dotted(cons.targets[0]) == 'self.tx_buffer':
             cp = slice_parts(cons.value)
